@@ -284,7 +284,10 @@ func c20Bucket(v int64, cuts []int64) string {
 	return fmt.Sprintf(">%d", cuts[len(cuts)-1])
 }
 
-var c20Garbage = []string{"garbage", "sometime in spring", "32 Jan 1800", "31 Apr 1801", "29 Feb 1801", "Foo 1802", "0 Mar 1803", "1 Jan", "??", "12/03/1804"}
+// Values the date parser does not understand; a date phrase in parentheses is
+// by the library's own definition "not recognizable to a date parser"
+// (IsPhrase) and IsValid() is false for it, so it is in the list.
+var c20Garbage = []string{"garbage", "sometime in spring", "32 Jan 1800", "31 Apr 1801", "29 Feb 1801", "Foo 1802", "0 Mar 1803", "1 Jan", "??", "12/03/1804", "(about harvest time)", "(unknown)", "()"}
 
 func c20Draw(r *fw.Rand, tokBase int) *c20Model {
 	m := &c20Model{strata: map[string]string{}}
@@ -501,7 +504,7 @@ func c20N(tier string) int {
 	if tier == "thorough" {
 		return 150000
 	}
-	return 2000
+	return 8000
 }
 
 func init() {
@@ -530,7 +533,7 @@ func init() {
 			return f
 		},
 		Assumptions: []string{
-			"clear-cut data only: +/- 4 days around the year-based thresholds, sibling gaps of 2-3 and 269-279 days, marriages before a spouse's birth, phrase dates and people with several SEX lines acting as spouses are never generated",
+			"clear-cut data only: +/- 4 days around the year-based thresholds, sibling gaps of 2-3 and 269-279 days, marriages before a spouse's birth and people with several SEX lines acting as spouses are never generated; a date phrase in parentheses counts as unparsable (IsValid() is false for it by definition)",
 			"every child has one BIRT and belongs to one family; age is counted from BIRT (no baptism-only people among spouses)",
 		},
 	})
